@@ -65,6 +65,13 @@ def check(ctx):
         pcs.append(ppx.PC({"top.sv": macro_chain(n, cyc=True)}, tag="macro-cycle")); exp.append(expect("macro", n, True))
         for via in (None, "macro", "name"):
             pcs.append(ppx.PC(inc_chain(n - 1, cyc=True, via=via), tag="include-cycle-%s" % (via or "plain"))); exp.append(expect("inc", n, True))
+    # include cycles whose files are reachable both relative to the working directory and through an include path
+    for n in ([1, 2] if q else [1, 2, 3, 5]):
+        for via in (None, "macro"):
+            pc = ppx.PC(inc_chain(n - 1, cyc=True, via=via), incdirs=[".", "./"], tag="include-cycle-two-routes")
+            pcs.append(pc); exp.append(expect("inc", n, True))
+    for n in ([64] if q else [1, 30, 64]):
+        pcs.append(ppx.PC(inc_chain(n), incdirs=["."], tag="include-chain-two-routes")); exp.append(expect("inc", n, False))
     # mixed: a macro chain of depth m inside an include chain of depth a
     for a, m in ([(3, 64), (3, 65), (64, 64), (10, 70)] if q else [(a, m) for a in (1, 3, 30, 63, 64) for m in (1, 63, 64, 65, 70)]):
         files = inc_chain(a, leaf=macro_chain(m))
@@ -85,7 +92,17 @@ def check(ctx):
     for pc, e in list(zip(pcs, exp))[:: (7 if q else 3)]:
         extra.append((ppx.PC(pc.files, strip=True, predefs=[("Q", None)], tag=pc.tag + "+strip"), e))
     pcs += [x[0] for x in extra]; exp += [x[1] for x in extra]
-    cases, res, diffs = ppx.correspond(ctx, "preprocess (chains and cycles) vs PP/Eval.v", pcs, "c09")
+    # every case ends within seconds or not at all: a short limit, so that a run that does not return is found by bisection quickly
+    slow = [i for i, pc in enumerate(pcs) if "two-routes" in (pc.tag or "")]
+    fast = [i for i in range(len(pcs)) if i not in set(slow)]
+    cases, res, diffs = ppx.correspond(ctx, "preprocess (chains and cycles) vs PP/Eval.v", [pcs[i] for i in fast], "c09", timeout=90)
+    # the families in which a wrong search order can make a cycle explode are run apart, one case per process, with a tight limit
+    res_slow = []
+    for i in slow:
+        _, r1, _ = ppx.correspond(ctx, "preprocess (cycles reachable by two routes) vs PP/Eval.v", [pcs[i]], "c09b", timeout=25)
+        res_slow += r1
+    order = fast + slow
+    pcs, exp, res = [pcs[i] for i in order], [exp[i] for i in order], list(res) + res_slow
     bad = None
     for pc, e, rr in zip(pcs, exp, res):
         if rr.crash:
